@@ -6,6 +6,7 @@
 #include <cstdlib>
 #include <cstring>
 #include <string>
+#include <vector>
 
 static long g_breaks = 0;
 #ifdef HFSM2_VERIF
@@ -46,6 +47,45 @@ using namespace hfsm2; using namespace hfsm2::detail;
 static uint64_t rs = 0x9E3779B97F4A7C15ull;
 static uint64_t rnd() { rs ^= rs << 13; rs ^= rs >> 7; rs ^= rs << 17; return rs; }
 
+static unsigned long long g_convSame = 0, g_convOther = 0;	// float conversions equal to / different from the usual exponent-trick formula: reported, not judged
+// modular inverses of 5 and 9 (the ** scrambler is rotl(s1 * 5, 7) * 9)
+static inline uint64_t rotr64(uint64_t x, int k) { return (x >> k) | (x << (64 - k)); }
+static inline uint32_t rotr32(uint32_t x, int k) { return (x >> k) | (x << (32 - k)); }
+// every float or double lies in [0,1): crafted states whose next raw output is an extreme value (all ones, just below, powers of two, ...)
+static void extremes() {
+	std::vector<uint64_t> t64; std::vector<uint32_t> t32;
+	for (int k = 0; k < 64; ++k) { t64.push_back(UINT64_C(1) << k); t64.push_back((UINT64_C(1) << k) - 1); t64.push_back(~(UINT64_C(1) << k)); t64.push_back(~UINT64_C(0) << k); }
+	for (uint64_t j = 0; j < 4100; ++j) t64.push_back(~UINT64_C(0) - j);
+	for (int i = 0; i < 2000; ++i) { t64.push_back(rnd()); t64.push_back(rnd() | (~UINT64_C(0) << (10 + i % 50))); }
+	for (int k = 0; k < 32; ++k) { t32.push_back(UINT32_C(1) << k); t32.push_back((UINT32_C(1) << k) - 1); t32.push_back(~(UINT32_C(1) << k)); t32.push_back(~UINT32_C(0) << k); }
+	for (uint32_t j = 0; j < 1100; ++j) t32.push_back(~UINT32_C(0) - j);
+	for (int i = 0; i < 2000; ++i) { t32.push_back((uint32_t)rnd()); t32.push_back((uint32_t)rnd() | (~UINT32_C(0) << (5 + i % 26))); }
+	const uint64_t inv5 = UINT64_C(0xCCCCCCCCCCCCCCCD), inv9 = UINT64_C(0x8E38E38E38E38E39);
+	const uint32_t inv5s = 0xCCCCCCCDu, inv9s = 0x38E38E39u;
+	if (inv5 * 5 != 1 || inv9 * 9 != 1 || (uint32_t)(inv5s * 5u) != 1u || (uint32_t)(inv9s * 9u) != 1u) { V("anchor|modular-inverse-wrong", ""); return; }
+	for (uint64_t T : t64) {
+		++g_distinct;
+		{ const uint64_t st[4] = { T, 1, 0, 0 }; FloatRandomT<8> g{st}; FloatRandomT<8> g2{st}; FloatRandomT<8> g3{st};
+		  ++g_checks; if (g3.uint64() != T) { V("anchor|crafted-state-does-not-produce-the-target", "xoshiro256+"); return; }
+		  const double d = g.float64(); if (!(d >= 0.0 && d < 1.0)) V("range|float64-outside-[0,1)", "xoshiro256+ raw=" + std::to_string(T) + " value=" + std::to_string(d));
+		  const float f = g2.float32(); if (!(f >= 0.0f && f < 1.0f)) V("range|float32-outside-[0,1)", "xoshiro256+ raw=" + std::to_string(T) + " value=" + std::to_string(f)); }
+		{ const uint64_t s1 = rotr64(T * inv9, 7) * inv5; const uint64_t st[4] = { 1, s1, 0, 0 }; IntRandomT<8> g{st}; IntRandomT<8> g2{st}; IntRandomT<8> g3{st};
+		  ++g_checks; if (g3.uint64() != T) { V("anchor|crafted-state-does-not-produce-the-target", "xoshiro256**"); return; }
+		  const double d = g.float64(); if (!(d >= 0.0 && d < 1.0)) V("range|float64-outside-[0,1)", "xoshiro256** raw=" + std::to_string(T) + " value=" + std::to_string(d));
+		  const float f = g2.float32(); if (!(f >= 0.0f && f < 1.0f)) V("range|float32-outside-[0,1)", "xoshiro256** raw=" + std::to_string(T) + " value=" + std::to_string(f)); }
+	}
+	for (uint32_t T : t32) {
+		++g_distinct;
+		{ const uint32_t st[4] = { T, 1, 0, 0 }; FloatRandomT<4> g{st}; FloatRandomT<4> g3{st};
+		  ++g_checks; if (g3.uint32() != T) { V("anchor|crafted-state-does-not-produce-the-target", "xoshiro128+"); return; }
+		  const float f = g.float32(); if (!(f >= 0.0f && f < 1.0f)) V("range|float32-outside-[0,1)", "xoshiro128+ raw=" + std::to_string(T) + " value=" + std::to_string(f)); }
+		{ const uint32_t s1 = rotr32(T * inv9s, 7) * inv5s; const uint32_t st[4] = { 1, s1, 0, 0 }; IntRandomT<4> g{st}; IntRandomT<4> g3{st};
+		  ++g_checks; if (g3.uint32() != T) { V("anchor|crafted-state-does-not-produce-the-target", "xoshiro128**"); return; }
+		  const float f = g.float32(); if (!(f >= 0.0f && f < 1.0f)) V("range|float32-outside-[0,1)", "xoshiro128** raw=" + std::to_string(T) + " value=" + std::to_string(f)); }
+		// float64() of the 32-bit variants combines two raw outputs: both crafted extreme
+		{ const uint32_t st[4] = { T, 1, 0, 0 }; FloatRandomT<4> g{st}; const double d = g.float64(); ++g_checks; if (!(d >= 0.0 && d < 1.0)) V("range|float64-outside-[0,1)", "xoshiro128+ first raw=" + std::to_string(T) + " value=" + std::to_string(d)); }
+	}
+}
 static void seed64(uint64_t seed, int outputs) {
 	++g_distinct;
 	{ SimpleRandomT<8> a{seed}; ref::SplitMix64 r{seed}; for (int i = 0; i < 16; ++i) { ++g_checks; if (a.raw64() != r.next()) { V("splitmix64|raw-sequence-differs-from-reference", "seed=" + std::to_string(seed)); break; } } }
@@ -60,8 +100,8 @@ static void seed64(uint64_t seed, int outputs) {
 		if (b != f) { V("xoshiro256**|sequence-differs-from-reference", "seed=" + std::to_string(seed) + " position=" + std::to_string(i)); break; }
 	}
 	{ FloatRandomT<8> g{seed}; ref::SplitMix64 s2{seed}; ref::X256 r; for (int i = 0; i < 4; ++i) r.s[i] = s2.nextNonZero();
-		for (int i = 0; i < 64; ++i) { const double d = g.float64(); const double e = ref::uni64(r.plus()); ++g_checks; if (!(d >= 0.0 && d < 1.0)) V("range|float64-outside-[0,1)", std::to_string(d)); if (d != e) { V("xoshiro256+|float64-differs", "seed=" + std::to_string(seed)); break; } }
-		for (int i = 0; i < 64; ++i) { const float d = g.float32(); const float e = ref::uni32((uint32_t)r.plus()); ++g_checks; if (!(d >= 0.0f && d < 1.0f)) V("range|float32-outside-[0,1)", std::to_string(d)); if (d != e) { V("xoshiro256+|float32-differs", "seed=" + std::to_string(seed)); break; } if (g.next() < 0.0f) V("range|next", ""); r.plus(); }
+		for (int i = 0; i < 64; ++i) { const double d = g.float64(); const double e = ref::uni64(r.plus()); ++g_checks; if (!(d >= 0.0 && d < 1.0)) V("range|float64-outside-[0,1)", std::to_string(d)); if (d == e) ++g_convSame; else ++g_convOther; }
+		for (int i = 0; i < 64; ++i) { const float d = g.float32(); const float e = ref::uni32((uint32_t)r.plus()); ++g_checks; if (!(d >= 0.0f && d < 1.0f)) V("range|float32-outside-[0,1)", std::to_string(d)); if (d == e) ++g_convSame; else ++g_convOther; if (g.next() < 0.0f) V("range|next", ""); r.plus(); }
 		g.jump(); r.jump(); for (int i = 0; i < 8; ++i) { ++g_checks; if (g.uint64() != r.plus()) { V("xoshiro256+|jump-differs-from-reference", "seed=" + std::to_string(seed)); break; } }
 		IntRandomT<8> h{seed}; ref::SplitMix64 s3{seed}; ref::X256 q; for (int i = 0; i < 4; ++i) q.s[i] = s3.nextNonZero();
 		h.jump(); q.jump(); for (int i = 0; i < 8; ++i) { ++g_checks; if (h.uint64() != q.starstar()) { V("xoshiro256**|jump-differs-from-reference", "seed=" + std::to_string(seed)); break; } } }
@@ -77,7 +117,7 @@ static void seed32(uint32_t seed, int outputs) {
 		++g_checks; if (ip.uint32() != rss.starstar()) { V("xoshiro128**|sequence-differs-from-reference", "seed=" + std::to_string(seed) + " position=" + std::to_string(i)); break; }
 	}
 	{ FloatRandomT<4> g{seed}; ref::SplitMix32 s2{seed}; ref::X128 r; for (int i = 0; i < 4; ++i) r.s[i] = s2.nextNonZero();
-		for (int i = 0; i < 64; ++i) { const float d = g.float32(); ++g_checks; if (!(d >= 0.0f && d < 1.0f)) V("range|float32-outside-[0,1)", std::to_string(d)); if (d != ref::uni32(r.plus())) { V("xoshiro128+|float32-differs", "seed=" + std::to_string(seed)); break; } }
+		for (int i = 0; i < 64; ++i) { const float d = g.float32(); ++g_checks; if (!(d >= 0.0f && d < 1.0f)) V("range|float32-outside-[0,1)", std::to_string(d)); if (d == ref::uni32(r.plus())) ++g_convSame; else ++g_convOther; }
 		for (int i = 0; i < 16; ++i) { const double d = g.float64(); ++g_checks; if (!(d >= 0.0 && d < 1.0)) V("range|float64-outside-[0,1)", std::to_string(d)); r.plus(); r.plus(); }
 		g.jump(); r.jump(); for (int i = 0; i < 8; ++i) { ++g_checks; if (g.uint32() != r.plus()) { V("xoshiro128+|jump-differs-from-reference", "seed=" + std::to_string(seed)); break; } }
 		IntRandomT<4> h{seed}; ref::SplitMix32 s3{seed}; ref::X128 q; for (int i = 0; i < 4; ++i) q.s[i] = s3.nextNonZero();
@@ -97,6 +137,7 @@ int main(int argc, char** argv) {
 	for (int k = 1; k < 64; ++k) { seed64((UINT64_C(1) << k) - 1, 64); seed64((UINT64_C(1) << k) + 1, 64); }
 	for (int k = 1; k < 32; ++k) { seed32((UINT32_C(1) << k) - 1, 64); seed32((UINT32_C(1) << k) + 1, 64); }
 	for (uint64_t k = 1; k <= 4; ++k) { seed64((uint64_t)0 - k * UINT64_C(0x9E3779B97F4A7C15), outs); seed32((uint32_t)0 - (uint32_t)k * 0x9e3779b9u, outs); }
+	extremes();
 	const int n = thorough ? 100000 : 4000;
 	for (int i = 0; i < n; ++i) { seed64(rnd(), 24); seed32((uint32_t)rnd(), 24); }
 	if (thorough) {
@@ -105,13 +146,14 @@ int main(int argc, char** argv) {
 		printf("X exhaustive-32bit-seed-sweep 4294967296\n");
 	}
 	// uniform(): 0, all ones, random words
-	{ const uint32_t w32[] = { 0u, 0xffffffffu, 0x1ffu, 0x200u, 0x80000000u }; for (uint32_t w : w32) { const float f = uniform(w); ++g_checks; if (!(f >= 0.0f && f < 1.0f) || f != ref::uni32(w)) V("uniform|float-outside-[0,1)-or-differs", std::to_string(w)); }
-	  const uint64_t w64[] = { 0ull, ~0ull, 0xfffull, 0x1000ull, 1ull << 63 }; for (uint64_t w : w64) { const double d = uniform(w); ++g_checks; if (!(d >= 0.0 && d < 1.0) || d != ref::uni64(w)) V("uniform|double-outside-[0,1)-or-differs", std::to_string(w)); }
+	{ const uint32_t w32[] = { 0u, 0xffffffffu, 0x1ffu, 0x200u, 0x80000000u }; for (uint32_t w : w32) { const float f = uniform(w); ++g_checks; if (!(f >= 0.0f && f < 1.0f)) V("uniform|float-outside-[0,1)", std::to_string(w)); }
+	  const uint64_t w64[] = { 0ull, ~0ull, 0xfffull, 0x1000ull, 1ull << 63 }; for (uint64_t w : w64) { const double d = uniform(w); ++g_checks; if (!(d >= 0.0 && d < 1.0)) V("uniform|double-outside-[0,1)", std::to_string(w)); }
 	  const long m = thorough ? 10000000 : 500000;
 	  for (long i = 0; i < m; ++i) { const uint64_t w = rnd(); const float f = uniform((uint32_t)w); const double d = uniform(w); g_checks += 2; if (!(f >= 0.0f && f < 1.0f) || !(d >= 0.0 && d < 1.0)) { V("uniform|value-outside-[0,1)", std::to_string(w)); break; } } }
 	// RNGT<float> as used by a machine: same seed, same stream
 	{ hfsm2::RNGT<float> a{0}, b{0}; hfsm2::RNGT<float> c{77}, d{77};
 	  for (int i = 0; i < 1000; ++i) { const float x = a.next(); ++g_checks; if (x != b.next()) { V("determinism|RNGT-equal-seeds-diverge", ""); break; } if (!(x >= 0.0f && x < 1.0f)) V("range|RNGT-outside-[0,1)", ""); if (c.next() != d.next()) { V("determinism|RNGT-equal-seeds-diverge", ""); break; } } }
+	printf("X float-conversions-equal-to-the-exponent-trick-formula %llu other %llu (reported, not judged)\n", g_convSame, g_convOther);
 	printf("Z %llu %llu %d %ld\n", g_checks, g_distinct, g_viol, g_breaks);
 	return 0;
 }
